@@ -176,6 +176,22 @@ def pair_pipelines(mono_ctxs: list[str]) -> list[list[dict]]:
     return out
 
 
+def pin_pipelines(requests: list[str], same_format: list[str]) -> list[list[dict]]:
+    """Pipelines of the pinned family: monomorphize against every request context
+    (alone and with argument types); against the same-format requests also twice
+    and composed with inline and close in both orders."""
+    out: list[list[dict]] = []
+    for c in requests:
+        out.append([mono(c)])
+        out.append([mono(c, ARG_TYPES)])
+        if c in same_format:
+            out.append([mono(c), mono(c)])
+            for other in (inl(None, True), CLOSE):
+                out.append([mono(c), other])
+                out.append([other, mono(c)])
+    return out
+
+
 def pinned_ctx(pipeline) -> str | None:
     for s in pipeline:
         if s['op'] == 'mono' and s['ctx'] is not None:
@@ -271,7 +287,7 @@ def call(fn: Function, inp, ctx):
 class Check(BaseCheck):
     pid = 'C09'
     rule = ('every program of the C09 grammar (caller/callee pairs: 3 callee contexts x 8 callee bodies x 28 call '
-            'positions x 2 argument forms; factory family (2-3 callees capturing different/same values under one name: 3 contexts x 2 bodies x 9 layout-arity combinations x 2 variants); 3-chains: 3x3 contexts x 4 chain bodies x 8 leaf bodies x 9 positions) x '
+            'positions x 2 argument forms; factory family (2-3 callees capturing different/same values under one name: 3 contexts x 2 bodies x 9 layout-arity combinations x 2 variants); pinned family (declared context = pool format under RTZ/RTP/RTN or SATURATE on caller/callee/both/chain leaf, monomorphized against the pool and every same-format rounding mode: 96 programs); 3-chains: 3x3 contexts x 4 chain bodies x 8 leaf bodies x 9 positions) x '
             'every pipeline of length 1 and every ordered pair of 7 base transformations x every pool input x every '
             'pool caller context; f(args, ctx=C) vs T(f)(args, ctx=C) (mono(C): T(f)(args) without ctx; close: '
             'captured globals changed after closing). nontrivial = judged case whose transformed program text '
@@ -300,7 +316,7 @@ class Check(BaseCheck):
         if self._programs is None:
             pairs = pg.all_pairs()
             chains = pg.all_chains()
-            facts = pg.all_facts()
+            facts = pg.all_facts() + pg.all_pins()
             if self.tier == 'thorough':
                 self._programs = pairs + facts + chains
             else:
@@ -314,6 +330,8 @@ class Check(BaseCheck):
         return {'programs': len(ps), 'pairs': sum(1 for p in ps if p[0] == 'pair'),
                 'chains': sum(1 for p in ps if p[0] == 'chain'),
                 'factory_programs': sum(1 for p in ps if p[0] == 'fact'),
+                'pinned_programs': sum(1 for p in ps if p[0] == 'pin'),
+                'pinned_inputs': len(pg.INPUTS_PIN),
                 'chains_total': len(pg.all_chains()),
                 'inputs': len(self.inputs), 'caller_contexts': self.ctx_texts,
                 'pipelines_len1': 'about 15-20 per program (depends on the number of call sites)',
@@ -357,8 +375,14 @@ class Check(BaseCheck):
     def _check_loaded(self, r, desc, src, mod, only):
         f = mod.f
         shape = pg.describe(desc)
-        ctx_texts = self.ctx_texts if only is None else [only[2]]
-        inputs = self.inputs if only is None else [only[1]]
+        is_pin = desc[0] == 'pin'
+        if is_pin:      # monomorphize family: every request context, inputs inexact everywhere
+            requests = pg.pin_requests(desc, self.ctx_texts)
+            ctx_texts = requests if only is None else [only[2]]
+            inputs = pg.INPUTS_PIN if only is None else [only[1]]
+        else:
+            ctx_texts = self.ctx_texts if only is None else [only[2]]
+            inputs = self.inputs if only is None else [only[1]]
         ctxs = {c: (None if c is None else eval(c, _EVAL_ENV)) for c in ctx_texts}
         if only is not None and pinned_ctx(only[0]) is not None:
             ctxs[pinned_ctx(only[0])] = eval(pinned_ctx(only[0]), _EVAL_ENV)
@@ -377,6 +401,8 @@ class Check(BaseCheck):
 
         if only is not None:
             pipelines = [only[0]]
+        elif is_pin:
+            pipelines = pin_pipelines(requests, pg.pin_requests(desc, []))
         else:
             try:
                 nsites = len(st.sites(st.inline, f))
